@@ -13,6 +13,9 @@ Pipeline (DESIGN 4/C15):
        interpolation nearest_/linear_/per_axis_interpolator x single points / point array (+out) / mesh grid (+out) x
                     float64/32, complex128/64, int64 and strings (nearest)
        Resampling, linear_deform (+out), LinDeformFixedTempl, LinDeformFixedDisp on lattice data
+       call histories: every sequence of <= 3 calls (in-place / out-of-place / element() x int, float32, float64, complex64,
+                    complex128, and overwriting the previously returned object) on ONE function object (SampleHist machine),
+                    with values that need float64 precision, compared exactly
   3. Every call above and the calls of a seeded random driver (random dyadic non-uniform grids, data, points, polynomials)
      are recorded as events and validated by TLC (Trace_Interp).
 """
@@ -166,7 +169,27 @@ def execute(plan):
         return exec_resample(plan['cfg'], plan['conc'], plan['D'])
     if k == 'deform':
         return exec_deform(plan['cfg'], plan['pts'], plan['conc'], plan['D'])
+    if k == 'hist':
+        calls = L.run_history(plan['obj'], plan['hist'], plan['conc'])
+        msgs = [c.pop('errmsg') for c in calls if 'errmsg' in c]
+        return {'kind': 'history', 'fn': plan['obj']['fn'], 'cvs': plan['obj']['cvs'], 'calls': calls, 'err': '',
+                '_errmsg': '; '.join(msgs)}
     raise ValueError(k)
+
+
+def compare_hist(ev, hist):
+    """-> [(clause, index of the call)]"""
+    out = []
+    for j, (c, h) in enumerate(zip(ev['calls'], hist), start=1):
+        if c['kind'] == 'mutate':
+            continue
+        if c['err']:
+            out.append(('raised', j))
+        elif len(c['obs']) != len(h['exp']):
+            out.append(('length', j))
+        elif any(d and o != e for o, e, d in zip(c['obs'], h['exp'], h['def'])):
+            out.append(('hist', j))
+    return out
 
 
 def compare(ev, exp, defined=None):
@@ -184,10 +207,20 @@ def compare(ev, exp, defined=None):
     return []
 
 
-def signature(ev, plan, clause):
+def signature(ev, plan, clause, k=0):
     """Family-level signature (no literal numbers); a raised exception is identified by call site and error class,
     a wrong value additionally by value type / function class / point-passing form."""
     conc = plan['conc']
+    if plan['k'] == 'hist':
+        calls = ev['calls']
+        c = calls[k - 1] if 1 <= k <= len(calls) else {'kind': '-', 'dt': '-', 'err': ''}
+        first = next((x for x in calls[:max(k - 1, 0)] if x['kind'] != 'mutate'), None)
+        sig = {'api': 'history', 'conv': conc['conv'], 'func': plan['fnclass'], 'call': c['kind'], 'dtype': c['dt'],
+               'first': 'self' if first is None else first['kind'] + '/' + first['dt'],
+               'mutated': 'yes' if any(x['kind'] == 'mutate' for x in calls[:max(k - 1, 0)]) else 'no', 'clause': clause}
+        if clause == 'raised':
+            sig['error'] = c['err']
+        return sig
     nd = '1' if len(ev['cvs']) == 1 else 'nd'
     dtc = dtype_class(conc['dtype'])
     if plan['k'] == 'sample':
@@ -203,6 +236,8 @@ def signature(ev, plan, clause):
            'dtype': dtc, 'scheme': scl, 'ndim': nd, 'clause': clause}
     if clause == 'raised':
         sig['error'] = ev['err']
+        if plan['k'] == 'interp':
+            sig['form'] = 'mesh_1pt' if conc['form'] == 'mesh_1pt' else 'any'
     elif plan['k'] == 'interp':
         sig['form'] = conc['form']
     return sig
@@ -275,6 +310,14 @@ def plans_interp(cfg, qs, rot, thorough):
         for which, form in combos:
             out.append(({'k': 'interp', 'cvs': cvs, 'f': f, 'schemes': schemes, 'xs': xs, 'pts': pts, 'D': D,
                          'conc': {'which': which, 'form': form, 'dtype': dt}}, exp, defined))
+    # a mesh grid whose first axis holds a single point (the other axes keep all their points)
+    j1 = rot % len(pts[0])
+    pts1 = [[pts[0][j1]]] + pts[1:]
+    xs1 = L.mesh_points(pts1)
+    sub = [byx[json.dumps(x)] for x in xs1]
+    out.append(({'k': 'interp', 'cvs': cvs, 'f': f, 'schemes': schemes, 'xs': xs1, 'pts': pts1, 'D': D,
+                 'conc': {'which': whichs[rot % len(whichs)], 'form': 'mesh_1pt', 'dtype': dts[0]}},
+                [q['ans'] for q in sub], [q['defined'] for q in sub]))
     if allnear:
         extra = []
         if real and L.is_int_vals(f):
@@ -288,6 +331,21 @@ def plans_interp(cfg, qs, rot, thorough):
                 out.append(({'k': 'interp', 'cvs': cvs, 'f': f, 'schemes': schemes, 'xs': xs, 'pts': pts, 'D': D,
                              'conc': {'which': 'nearest', 'form': form, 'dtype': dt}}, e, None))
     return out
+
+
+def fn_class(fn):
+    if fn['kind'] == 'pw':
+        return 'intfirst'
+    return 'ident' if (len(fn['poly']) == 1 and fn['poly'][0]['c'] == [[1, 1], [0, 1]] and sum(fn['poly'][0]['e']) == 1) else 'fine'
+
+
+def plans_hist(case, rot, thorough):
+    obj, hist = case['obj'], case['hist']
+    variants = [(r, p) for r in (False, True) for p in ('mesh', 'array')]
+    if not thorough:
+        variants = [variants[rot % 4]]
+    return [({'k': 'hist', 'obj': obj, 'hist': hist, 'fnclass': fn_class(obj['fn']), 'D': 1,
+              'conc': {'conv': obj['conv'], 'reuse_sf': r, 'points': p}}, hist, None) for r, p in variants]
 
 
 def plans_resample(case, rot, thorough):
@@ -336,10 +394,19 @@ def replay_task(args):
     elif mode == 'deform':
         for j, c in enumerate(cases):
             plans += plans_deform(c, rot0 + j, thorough)
+    elif mode == 'hist':
+        for j, c in enumerate(cases):
+            plans += plans_hist(c, rot0 + j, thorough)
     out = []
     for plan, exp, defined in plans:
         ev = execute(plan)
         if ev is None:
+            continue
+        if plan['k'] == 'hist':
+            cl = compare_hist(ev, exp)
+            if cl:
+                ev['_expected'] = [{'kind': h['kind'], 'dt': h['dt'], 'exp': h['exp'], 'def': h['def']} for h in exp]
+            out.append((ev, slim(plan), cl, True))
             continue
         cl = compare(ev, exp, defined)
         if cl:
@@ -351,7 +418,7 @@ def replay_task(args):
 
 
 def slim(plan):
-    return {k: v for k, v in plan.items() if k in ('k', 'conc', 'pclass', 'schemes', 'D')}
+    return {k: v for k, v in plan.items() if k in ('k', 'conc', 'pclass', 'schemes', 'D', 'fnclass')}
 
 
 # ------------------------------------------------------------------ seeded random driver (code -> spec)
@@ -501,6 +568,12 @@ def clean(ev):
     return {k: v for k, v in ev.items() if not k.startswith('_')}
 
 
+def weight_of(ev):
+    if ev['kind'] == 'history':
+        return max(1, sum(len(c['obs']) for c in ev['calls']))
+    return max(1, len(ev.get('xs', ev.get('obs', []))))
+
+
 def run(ctx):
     import multiprocessing as mp
     quick = ctx.tier == 'quick'
@@ -516,7 +589,11 @@ def run(ctx):
         'nearest is compared everywhere (closest node = edge node)',
         'integer and string value types are claimed for nearest_interpolator only (per-axis / linear arithmetic on integers raises in NumPy)',
         'grids for interpolation have >= 2 nodes per axis (a one-node axis has no surrounding nodes); sampling includes one-node axes',
-        'Resampling is exercised out-of-place and in place (out pre-filled with NaN)']
+        'Resampling is exercised out-of-place and in place (out pre-filled with NaN); Resampling(s, s)(x, out=x) (input aliased with '
+        'output) belongs to the aliasing properties C03/C10 and is not exercised here',
+        'call histories: a call into an integer value type is compared only at grid points where the exact value is an integer; '
+        'float32 / complex64 results must equal the IEEE round-to-nearest-even of the exact value (computed in TLA+), float64 results '
+        'the exact value (27 significant bits)']
     import time
     T = [time.time()]
     phase = {}
@@ -536,13 +613,22 @@ def run(ctx):
         else:
             jobs.append(('model+export-' + m, 'MC_Interp_both.cfg', {'INTERP_MODE': m, 'INTERP_BIG': big, 'OUT_FILE': out}, 1))
     jobs.append(('nonvacuity', 'MC_Interp_bogus.cfg', {'INTERP_MODE': 'interp1', 'INTERP_BIG': '0', 'OUT_FILE': os.devnull}, 1))
+    # call histories on one function object: all sequences of <= 3 (quick: the decorated core 3, the rest 2) calls
+    HSETS = [('deco-core', '3', 'all'), ('deco-rest', '2' if quick else '3', 'all'), ('other', '2' if quick else '3', 'all'),
+             ('view', '3', 'few' if quick else 'all')]
+    for hs, hl, hd in HSETS:
+        jobs.append(('hist-' + hs, 'MC_SampleHist_check.cfg',
+                     {'HIST_SET': hs, 'HIST_LEN': hl, 'HIST_DTS': hd, 'OUT_FILE': os.path.join(work, 'exp_hist-%s.ndjson' % hs)}, 1))
+    jobs.append(('nonvacuity-hist', 'MC_SampleHist_bogus.cfg',
+                 {'HIST_SET': 'deco-core', 'HIST_LEN': '2', 'HIST_DTS': 'all', 'OUT_FILE': os.devnull}, 1))
 
     def go(j):
-        return j[0], run_tlc('MC_Interp.tla', j[1], work, env=j[2], workers=j[3], timeout=3000)
-    with ThreadPoolExecutor(max_workers=7) as ex:
+        mod = 'MC_SampleHist.tla' if 'hist' in j[0] else 'MC_Interp.tla'
+        return j[0], run_tlc(mod, j[1], work, env=j[2], workers=j[3], timeout=3000)
+    with ThreadPoolExecutor(max_workers=8) as ex:
         results = list(ex.map(go, jobs))
     for name, res in results:
-        if name == 'nonvacuity':
+        if name.startswith('nonvacuity'):
             ctx.add_tlc(name, res, expect='any')
             if res.status != 'counterexample':
                 raise MachineryError('self-test: the deliberately false invariant was not refuted')
@@ -572,6 +658,19 @@ def run(ctx):
             step = 10
             for i in range(0, len(cases), step):
                 tasks.append((m, cases[i:i + step], ctx.seed + i, not quick))
+    for hs, hl, hd in HSETS:
+        with open(os.path.join(work, 'exp_hist-%s.ndjson' % hs)) as f:
+            cases = [json.loads(l) for l in f if l.strip()]
+        if not cases:
+            raise MachineryError('empty export for history set ' + hs)
+        nlines['hist-' + hs] = len(cases)
+        if quick:
+            # quick tier replays a structural subset of the length-3 behaviours: the middle step is an in-place call (any value
+            # type) or an overwrite; every (first call, last call) pair stays covered. TLC still enumerates and checks all of them.
+            cases = [c for c in cases if len(c['hist']) < 3 or c['hist'][1]['kind'] in ('mutate', 'inplace')]
+        nlines['hist-' + hs + '-replayed'] = len(cases)
+        for i in range(0, len(cases), 400):
+            tasks.append(('hist', cases[i:i + 400], ctx.seed + i // 400, not quick))
     rnd = random.Random(ctx.seed * 7919 + 15)
     rplans = beyond_plans() + random_plans(rnd, 2500 if quick else 40000)
     with mp.get_context('fork').Pool(14) as pool:
@@ -590,10 +689,17 @@ def run(ctx):
     fam_counts = {}
     for i, (ev, plan, cl, nontriv) in enumerate(records):
         ev['id'] = i
-        points += max(1, len(ev.get('xs', ev.get('obs', []))))
-        ctx.count([{k: v for k, v in clean(ev).items() if k not in ('obs', 'err', 'id')}, plan['conc']], nontriv)
-        for clause in (cl or []):
-            report(ctx, fam_counts, signature(ev, plan, clause),
+        points += weight_of(ev)
+        ctx.count([{k: v for k, v in clean(ev).items() if k not in ('obs', 'err', 'id')} if ev['kind'] != 'history' else
+                   [ev['fn'], ev['cvs'], [(c['kind'], c['dt']) for c in ev['calls']]], plan['conc']], nontriv)
+        seen = set()
+        for item in (cl or []):
+            clause, kk = item if isinstance(item, tuple) else (item, 0)
+            sig = signature(ev, plan, clause, kk)
+            if dumps(sig, sort_keys=True) in seen:
+                continue
+            seen.add(dumps(sig, sort_keys=True))
+            report(ctx, fam_counts, sig,
                           {'stage': 'replay', 'event': clean(ev), 'plan': plan, 'errmsg': ev.get('_errmsg', ''),
                            'expected_by_spec': ev.get('_expected')})
     ctx.extra['values_compared'] = points
@@ -610,8 +716,8 @@ def run(ctx):
     files = []
     cur, weight = [], 0
     for rec in records:
-        w = max(1, len(rec[0].get('xs', rec[0].get('obs', []))))
-        if cur and (weight + w > 12000 or len(cur) >= 6000):
+        w = weight_of(rec[0])
+        if cur and (weight + w > 12000 or len(cur) >= 2500):
             files.append(cur)
             cur, weight = [], 0
         cur.append(rec)
@@ -638,13 +744,22 @@ def run(ctx):
             nfail += 1
             tlc_bad.add(eid)
             ev, plan, cl, nontriv = records[eid]
-            names = sorted(set(re.findall(r'<<\s*"([\w-]+)"\s*,\s*\d+\s*>>', ctext)))
-            if not names:
+            pairs = re.findall(r'<<\s*"([\w-]+)"\s*,\s*(\d+)\s*>>', ctext)
+            if not pairs:
                 raise MachineryError('unparsable FAIL clauses from TLC: %s' % ctext[:200])
-            if any(c in ('precondition', 'unknown-kind') for c in names):
+            if ev['kind'] == 'history':
+                names = sorted(set((c, int(k)) for c, k in pairs))
+            else:
+                names = sorted(set((c, 0) for c, k in pairs))
+            if any(c in ('precondition', 'unknown-kind') for c, _ in names):
                 raise MachineryError('driver produced an inadmissible event: %s' % dumps(clean(ev))[:300])
-            for clause in names:
-                report(ctx, fam_counts, signature(ev, plan, clause),
+            seen = set()
+            for clause, kk in names:
+                sig = signature(ev, plan, clause, kk)
+                if dumps(sig, sort_keys=True) in seen:
+                    continue
+                seen.add(dumps(sig, sort_keys=True))
+                report(ctx, fam_counts, sig,
                               {'stage': 'trace', 'event': clean(ev), 'plan': plan, 'errmsg': ev.get('_errmsg', ''),
                                'tlc_clauses': ctext[:600]})
     # both directions judge the replayed exported cases with the same layer-A operators: they must agree event by event
@@ -673,6 +788,13 @@ def replay(body):
     if plan['k'] == 'sample':
         plan.update(cvs=old['cvs'], poly=old['poly'])
         ev = execute(plan)
+    elif plan['k'] == 'hist':
+        plan.update(obj={'fn': old['fn'], 'cvs': old['cvs'], 'conv': plan['conc']['conv']},
+                    hist=[{'kind': c['kind'], 'dt': c['dt']} for c in old['calls']])
+        ev = execute(plan)
+        ev['obs'] = [c['obs'] for c in ev['calls']]
+        old = dict(old, obs=[c['obs'] for c in old['calls']])
+        print('behaviour:', [(c['kind'], c['dt'], c['err']) for c in old['calls']], '(all calls on ONE function object)')
     elif plan['k'] == 'interp':
         pts = None
         xs = old['xs']
